@@ -109,6 +109,8 @@ def judge_case(chk, lib, pop, text, variant, base_keys=None):
             cls = classify_read_error(msgs)
             if 'Could not create instance of the following complex' in rm.err:
                 cls = 'legal complex combination refused (%s)' % complex_shape(lib.schema, pop)
+            if vt:
+                cls = 'any'   # text-variant specific: the message class is incidental
             found.append(('read-error|%s%s|conforming file reported as error (sev=%s exit=%s)' % (cls, vt, sev, r1.rc),
                           'messages: %s' % msgs, dict(files, stdout=r1.out[-3000:], mon=rm.out[-3000:])))
         out1 = sc.read('out1.p21')
